@@ -156,13 +156,53 @@ where
 pub fn parse_serde_attrs<'a, A>(attrs: &'a [Attribute]) -> Serde<A>
 where
     A: Attr,
-    Serde<A>: TryFrom<&'a Attribute, Error = Error>,
+    Serde<A>: TryFrom<&'a Attribute, Error = Error> + syn::parse::Parse,
 {
     attrs
         .iter()
         .filter(|a| a.path().is_ident("serde"))
-        .flat_map(|attr| Serde::<A>::try_from(attr).ok())
+        .flat_map(|attr| match Serde::<A>::try_from(attr) {
+            Ok(parsed) => vec![parsed],
+            // The list contains an entry we cannot parse (e.g. `rename(serialize = "..")`).
+            // Only that entry is ignored, the other entries of the list still apply.
+            Err(_) => split_attr_entries(attr)
+                .into_iter()
+                .filter_map(|entry| match syn::parse2::<Serde<A>>(entry.clone()) {
+                    Ok(parsed) => Some(parsed),
+                    Err(_) => {
+                        if cfg!(not(feature = "no-serde-warnings")) {
+                            warning::print_warning(
+                                "failed to parse serde attribute",
+                                format!("{entry}"),
+                                "ts-rs failed to parse this attribute. It will be ignored.",
+                            )
+                            .unwrap();
+                        }
+                        None
+                    }
+                })
+                .collect(),
+        })
         .fold(Serde::<A>::default(), |acc, cur| acc.merge(cur))
+}
+
+/// Splits the content of a list attribute (`#[name(a, b = "..", c(..))]`) at its top-level commas.
+fn split_attr_entries(attr: &Attribute) -> Vec<TokenStream> {
+    let Ok(list) = attr.meta.require_list() else {
+        return vec![];
+    };
+
+    let mut entries = vec![TokenStream::new()];
+    for tt in list.tokens.clone() {
+        match tt {
+            proc_macro2::TokenTree::Punct(ref punct) if punct.as_char() == ',' => {
+                entries.push(TokenStream::new())
+            }
+            tt => entries.last_mut().unwrap().extend([tt]),
+        }
+    }
+    entries.retain(|entry| !entry.is_empty());
+    entries
 }
 
 /// Return doc comments parsed and formatted as JSDoc.
